@@ -7,6 +7,11 @@ ALL = ["C%02d" % i for i in range(1, 21)]
 
 # id -> (level category, engine, technique, level text, level note, design ref)
 CLAIMED = {
+    "C02": ("fault_enumeration", "F",
+            "fault enumeration over the real sync path: at every block-request position of a chain, for each multihash function (quick: sha2-256, truncated sha2-256, identity; thorough: 7 functions, segmented and unsegmented), the body is replaced by every single-bit flip, every truncation (consistent and original Content-Length), appended bytes, every other valid block, empty body, re-serialised node; followed by a healthy and a further tampered sync on the same subscriber with a store-wide audit after each",
+            "After every run every key/value of the destination store is re-hashed with the key's own multihash code and length, hook calls and counts are checked against verified store content, and a needed tampered block must fail the sync and leave the latest-synced value unset. Enumerating every position and body kind, including the identity function where a partial digest comparison becomes visible, is what one scripted 'fish' body cannot do.",
+            "Hash functions trusted (collision resistance for the enumerated alterations); bit flips strided on real advertisements in the quick tier.",
+            "DESIGN.md 6/C02"),
     "C01": ("model_checking", "F",
             "exhaustive enumeration of a bounded configuration space (chain length <=3 quick / <=4 thorough x entry point x head x latest-sync state x stop x resync x depth limits x segment size x every pre-stored subset; entries chains likewise), each configuration executed on the real subscriber/sync client/publisher over an in-memory network inside a synctest bubble and compared step by step with an integer reference model of the chain",
             "Every configuration of the stated finite space is an execution of the real code (traces_validated_against_impl = executions): hook log, return value, SyncFinished event and count, latest-synced value, readability of reported blocks and the publisher's request log are compared with the reference model, which does not depend on segment size or pre-stored blocks, so the 'same whatever segment size / pre-stored subset' clause is decided differentially. Exhaustive over boundaries (segment ending on the stop block, depth equal to remaining length) that scripted tests do not reach.",
